@@ -255,7 +255,7 @@ var Faults = []string{
 	"dup-param-inline", "dup-param-via-ref", "dup-param-two-refs", "two-body-params", "two-body-params-ref", "body-and-formdata",
 	"array-no-items-param", "array-no-items-header", "array-no-items-nested-items", "array-no-items-body-schema", "array-no-items-response-schema",
 	"required-undefined-property", "required-undefined-beside-scalar-additionalProperties", "unresolvable-ref-definition", "unresolvable-ref-parameter", "unresolvable-ref-response",
-	"dup-inherited-property", "dup-inherited-property-beside-allof", "circular-ancestry-direct", "circular-ancestry-indirect", "circular-ancestry-pure-ref-cycle",
+	"dup-inherited-property", "dup-inherited-property-beside-allof", "circular-ancestry-direct", "circular-ancestry-indirect", "circular-ancestry-pure-ref-cycle", "circular-ancestry-self-inheriting-ancestor",
 	"overlapping-paths", "invalid-pattern-param", "invalid-pattern-header", "invalid-pattern-schema", "invalid-pattern-items",
 	"missing-paths", "empty-placeholder",
 	"array-no-items-referenced-response-typelist", "two-body-params-go-name-collision",
@@ -603,6 +603,20 @@ func (g *SpecGen) Apply(fault string) (applied bool, strictOnly bool) {
 		a, b := "CA"+g.Tag, "CB"+g.Tag
 		defs[a] = map[string]any{"allOf": []any{map[string]any{"$ref": "#/definitions/" + b}, map[string]any{"type": "object", "properties": map[string]any{"pa": map[string]any{"type": "string"}}}}}
 		defs[b] = map[string]any{"allOf": []any{map[string]any{"$ref": "#/definitions/" + a}, map[string]any{"type": "object", "properties": map[string]any{"pb": map[string]any{"type": "string"}}}}}
+		return true, false
+	case "circular-ancestry-self-inheriting-ancestor":
+		// the definition itself is not on the cycle: it inherits (directly or through one more level) from a
+		// definition which inherits from itself
+		a, b, m := "CA"+g.Tag, "CB"+g.Tag, "CM"+g.Tag
+		mk := func(parent, own string) map[string]any {
+			return map[string]any{"allOf": []any{map[string]any{"$ref": "#/definitions/" + parent}, map[string]any{"type": "object", "properties": map[string]any{own: map[string]any{"type": "string"}}}}}
+		}
+		defs[b] = mk(b, "pb")
+		if g.R.Bool() {
+			defs[a] = mk(b, "pa")
+		} else {
+			defs[a], defs[m] = mk(m, "pa"), mk(b, "pm")
+		}
 		return true, false
 	case "circular-ancestry-indirect":
 		a, b, c := "CA"+g.Tag, "CB"+g.Tag, "CC"+g.Tag
